@@ -2,6 +2,7 @@ import GoCrypt.Props.C02Core
 import GoCrypt.Props.C10
 import GoCrypt.Props.C14
 import GoCrypt.Props.Accept
+import GoCrypt.Props.FlowModel
 
 /-!
 # C06 — verification classifies every string as match, mismatch or malformed correctly
@@ -83,4 +84,26 @@ theorem params_iff_unmarshal (S : Def) (ti : TypeInfo) (h : Bytes) (hti : tiOf S
 #print axioms GoCrypt.Accept.unmarshal_eq_grammar_argon2
 #print axioms GoCrypt.Accept.unmarshal_iff_grammar_argon2
 
+-- the pipeline model IS the regenerated code (Props/FlowModel.lean): a value semantics of the flow IR, instantiated with the model's own
+-- unmarshal / key / encoders, evaluates the IR regenerated from the current source to exactly Scheme.check and Scheme.params, for all inputs
+#print axioms GoCrypt.FlowModel.flowCheck_eq_model_md5
+#print axioms GoCrypt.FlowModel.flowCheck_eq_model_sha256
+#print axioms GoCrypt.FlowModel.flowCheck_eq_model_sha512
+#print axioms GoCrypt.FlowModel.flowCheck_eq_model_sha1
+#print axioms GoCrypt.FlowModel.flowCheck_eq_model_sunmd5
+#print axioms GoCrypt.FlowModel.flowCheck_eq_model_des
+#print axioms GoCrypt.FlowModel.flowCheck_eq_model_desext
+#print axioms GoCrypt.FlowModel.flowCheck_eq_model_bcrypt
+#print axioms GoCrypt.FlowModel.flowCheck_eq_model_nthash
+#print axioms GoCrypt.FlowModel.flowCheck_eq_model_argon2
+
+#print axioms GoCrypt.FlowModel.flowSalt_eq_model_md5
+#print axioms GoCrypt.FlowModel.flowParams_eq_model_sha256
+#print axioms GoCrypt.FlowModel.flowParams_eq_model_sha512
+#print axioms GoCrypt.FlowModel.flowParams_eq_model_sha1
+#print axioms GoCrypt.FlowModel.flowParams_eq_model_sunmd5
+#print axioms GoCrypt.FlowModel.flowSalt_eq_model_des
+#print axioms GoCrypt.FlowModel.flowParams_eq_model_desext
+#print axioms GoCrypt.FlowModel.flowParams_eq_model_bcrypt
+#print axioms GoCrypt.FlowModel.flowParams_eq_model_argon2
 end GoCrypt.C06
